@@ -70,6 +70,15 @@ func (kv *KeyValue) Flush() error {
 	if err := it.Close(); err != nil {
 		return err
 	}
+	if !commit {
+		// Nothing was buffered. The (empty) batches must still be
+		// committed: a batch has no abort, and a store such as sqlkv holds
+		// its gate and an open transaction from BeginBatch until CommitBatch.
+		if err := kv.back.CommitBatch(bmback); err != nil {
+			return err
+		}
+		return kv.buf.CommitBatch(bmbuf)
+	}
 	if commit {
 		if err := kv.back.CommitBatch(bmback); err != nil {
 			return err
